@@ -1,6 +1,7 @@
 import PsV.Proofs.ConvSpec
 import PsV.Proofs.ConvEval
 import PsV.Proofs.ConvDriver
+import PsV.Proofs.ConvNd
 /-!
 # C14 — convolution produces the true convolution with the unit-area kernel spline
 
@@ -362,6 +363,47 @@ example : ∃ R d', convolve (⟨[⟨1, 4, 2, 1, [0, 1, 2, 4], 0, 4⟩], #[1, 2]
   let ⟨R, d', h, hd', _, ho, _⟩ := blossom_is_convolution_slices (⟨[⟨1, 4, 2, 1, [0, 1, 2, 4], 0, 4⟩], #[1, 2]⟩ : CTable Rat) 0
     [0, 1, 3] ⟨1, 4, 2, 1, [0, 1, 2, 4], 0, 4⟩ rfl rfl rfl (by decide) (by decide) (by decide) (by decide) (by decide)
   ⟨R, d', h, hd', ho⟩
+
+/-- **Strøm's identity for the table (the full statement of the header)**: for a table of any number of dimensions
+with row-major strides, any dimension `dim` whose knots are strictly increasing, any kernel on `n ≥ 2` strictly
+increasing knots (`order + n − 1 ≤ 12` so that the `unsigned` factorials are exact): the table returned by
+`PsV.convolve`, evaluated through the shared Cox–de Boor specification as the sum over **all** stored coefficients
+`Σ coef · Π_d B_d(x_d)` (`ConvSpec.evalTable`), equals the specification's convolution integral
+`ConvSpec.specConv` of the original table, at every point whose coordinate `dim` lies in the new knot range
+`[ρ_0, ρ_last]`, `ρ` = the sorted pairwise sums (coinciding sums included). -/
+theorem blossom_is_convolution (T : CTable Rat) (dim : Nat) (ck : List Rat) (d : CDim Rat) (xs : List Rat)
+    (hd : T.dims[dim]? = some d)
+    (hstr : ∀ j e, T.dims[j]? = some e → e.stride = ((T.dims.map (·.naxes)).drop (j+1)).prod)
+    (hxs : xs.length = T.dims.length)
+    (hk : d.knots.length = d.nknots) (hnax : d.naxes + d.order + 1 = d.nknots) (hn1 : 1 ≤ d.naxes)
+    (hτ : d.knots.Pairwise (· < ·)) (hy : ck.Pairwise (· < ·)) (hq : 2 ≤ ck.length)
+    (h12 : d.order + ck.length - 1 ≤ 12) :
+    ∃ R d', convolve T dim ck = some R ∧ R.dims[dim]? = some d' ∧
+      d'.knots = sortKnots (pairSums d.knots ck) ∧ d'.nknots = d'.knots.length ∧
+      (getK d'.knots 0 ≤ xs.getD dim 0 → xs.getD dim 0 ≤ getK d'.knots (d'.nknots - 1) →
+        ConvSpec.evalTable R xs = ConvSpec.specConv T dim ck xs) := by
+  obtain ⟨R, d', hR, hd', h⟩ := convolve_is_convolution T dim ck d xs hd hstr hxs hk hnax hn1 hτ hy hq h12
+  obtain ⟨R2, d2, hR2, hd2, hkn, _, hnk, _⟩ := convolve_slices_spec T dim ck d hd hk hnax hn1 hτ hy hq h12
+  have hRR : R2 = R := Option.some.inj (hR2.symm.trans hR)
+  subst hRR
+  have hdd : d2 = d' := Option.some.inj (hd2.symm.trans hd')
+  subst hdd
+  exact ⟨R2, d2, hR, hd', hkn, hnk, h⟩
+
+/-- the hypotheses are satisfiable: a two-dimensional table (orders 1 and 0), convolved along dimension 0 with the
+kernel on 0, 1, 3, at a point inside the new knot range -/
+example : ∃ R d', convolve (⟨[⟨1, 4, 2, 2, [0, 1, 2, 4], 0, 4⟩, ⟨0, 3, 2, 1, [0, 1, 2], 0, 2⟩], #[1, 2, 3, 4]⟩ : CTable Rat) 0
+      [0, 1, 3] = some R ∧ R.dims[0]? = some d' ∧ d'.nknots = d'.knots.length :=
+  let ⟨R, d', h, hd', _, hn, _⟩ := blossom_is_convolution
+    (⟨[⟨1, 4, 2, 2, [0, 1, 2, 4], 0, 4⟩, ⟨0, 3, 2, 1, [0, 1, 2], 0, 2⟩], #[1, 2, 3, 4]⟩ : CTable Rat) 0 [0, 1, 3]
+    ⟨1, 4, 2, 2, [0, 1, 2, 4], 0, 4⟩ [5/2, 1/2] rfl
+    (by intro j e h
+        rcases j with _ | _ | j
+        · simp at h; subst h; rfl
+        · simp at h; subst h; rfl
+        · simp at h)
+    rfl rfl rfl (by decide) (by decide) (by decide) (by decide) (by decide)
+  ⟨R, d', h, hd', hn⟩
 
 /-! ## the new knot vector is *the* sorted arrangement of the pairwise sums -/
 
